@@ -25,6 +25,27 @@ NOTES = {
  "C15-r2-2": "caught after strengthening: the expected text of each file was computed in the same process in the same order as the run; it is now computed after a neutral document, and the three files are arranged so that one ends in a heading and the next starts with a definition",
  "C17-r2-2": "caught after strengthening: no existing file or directory had a glob metacharacter in its name (added to treegen)",
  "C18-r2-2": "caught after strengthening: the check only drove the FileResolver API; a section running the command line with and without --no-respect-gitignore under config files was added",
+ # found missed when every seed was re-run from a clean build state (the earlier 'caught' had depended on the random stream or on the stale build)
+ "C01-1": "caught after strengthening: detection had depended on the random stream; the hand-written escape_word the theorems are about is now compared with markdown_escape_word in C01 itself (it was only done in C05)",
+ "C04-1": "caught after strengthening: same port (escape_word vs markdown_escape_word) added to C04",
+ "C05-r2-2": "caught after strengthening: paragraphs never had two hard breaks in a row (empty segment); added to gen_para_text",
+ "C06-1": "caught after strengthening: the oracle accepted a line break between adjacent tags (a loosening from an earlier session, see 0.6); it now requires an open/close pair to stay on one line and lists what the unchanged code does as D-93 / D-97; tags holding their delimiters' characters added",
+ "C08-1": "caught after strengthening: no container held two paragraphs whose quotes balance only across them; added, and the pipeline model (per-paragraph scope, theorem C08_rewrite_is_per_paragraph) is compared with the implementation with the option on",
+ "C11-2": "caught after strengthening: a fixed corpus of plain sentence ends in several scripts (caf\u00e9., na\u00efve!, \u043c\u0438\u0440\u0435.) must be followed by a break (the seed changes the detector itself, which the model follows)",
+ "C12-1": "caught after strengthening: the pumped families were only timed; their output is now checked for well-formedness too (placeholder bytes), and a family with hundreds of mixed constructs was added",
+ "C12-r2-1": "caught after strengthening: code never held a fence-like line indented by four or more columns without a shallower one; added to gen_docs",
+ # round 4
+ "C01-r3-2": "caught after strengthening: indented code never held a fence line followed by spaces or a tab (still a closing fence for a reader); added to gen_docs and C04's code generators",
+ "C02-r3-2": "caught after strengthening: as C01-r3-2",
+ "C02-r3-1": "caught after strengthening: no table cell had a backslash directly before a pipe (plain or inside a code span); added to gen_docs",
+ "C04-r3-2": "caught after strengthening: as C02-r3-1, added to C04's table cells",
+ "C04-r3-1": "caught after strengthening: no template tag was written across two source lines; added to SPANS (the literal extractor then had to look for tags across soft breaks, with a pattern of its own)",
+ "C03-r3-2": "caught after strengthening: layout pairs rarely differed inside a reference label; ten hand-written pairs that differ inside constructs (link text, label, title, emphasis, setext heading, item, quote, footnote, image, code span) run in every check",
+ "C05-r3-2": "caught after strengthening: the model follows the changed pattern, so the port agrees; an oracle counting hard breaks in and out of line_wrap_to_width was added, and separators with a literal backslash before the break",
+ "C10-r3-1": "caught after strengthening: the heading vocabulary had no bold span followed by bare punctuation; it is now every ordered pair of 15 heading pieces, each used in every run",
+ "C11-r3-1": "caught after strengthening: words were only separated by ASCII whitespace; U+00A0, U+2003, U+3000, form feed, U+001F, U+2028 added as separators",
+ "C12-r3-1": "caught (patch rebased onto fix a7bad7d, which rewrote the lines it changes)",
+ "C12-r3-2": "caught after strengthening: nothing was run at a huge width; a 250 KB paragraph is timed at width 88 and at width 1 000 000",
 }
 rows = []
 for d in sorted(glob.glob('/verif/seeded/*/')):
@@ -44,10 +65,14 @@ for d in sorted(glob.glob('/verif/seeded/*/')):
 n = len(rows)
 tbl = "| id | seeded change (one line) | check | result |\n|---|---|---|---|\n" + "\n".join(rows)
 first = sum(1 for r in rows if 'caught as it stood' in r)
-tbl += (f"\n\n{n} changes from 36 sub-agent runs (round 1: two per property, 36; round 2, asked for subtler changes different from round 1: 20 for C01-C06, C09-C12 and 16 for C07, C08, C13-C18), each confirmed: "
+tbl += (f"\n\n{n} changes from 46 sub-agent runs (round 1: two per property, 36; round 2, asked for subtler changes different from round 1: 20 for C01-C06, C09-C12 and 16 for C07, C08, C13-C18; round 3, asked for changes that look like plausible refactorings: 20 for C01-C06, C09-C12, ids Cxx-r3-k), each confirmed: "
         "the patch applies to /repo, the 302 tests pass with it, the agent's demonstration exits 1 with it and 0 without it. "
         f"{first} were reported by the property's quick check as it stood; the others were missed at first and are caught after the named strengthening of a "
-        "generator (no oracle was loosened or special-cased), except C03-r2-1, which only the C01 check sees. `seeded/<id>/result.json` holds the last run of each.")
+        "generator or oracle (nothing was special-cased to a seed; where an oracle was changed it was made stricter or independent of the implementation), "
+        "except C03-r2-1, which only the C01 check sees. Twenty changes of rounds 1 and 2 had been recorded as caught in earlier sessions on the strength of a "
+        "check that had failed for another reason (a stale build, 0.6); all 92 were therefore run again from a clean state at the end, with the checks as "
+        "committed: `seeded/<id>/result.json` holds that run. A patch that no longer applied after a later `fix:` commit was rebased by hand onto the "
+        "current code (same change, same demonstration).")
 s = open('/verif/DESIGN.md').read()
 i = s.index('### 0.10 Seeded defects'); j = s.index('### 0.11')
 head = s[i:].split('\n\n', 1)[0]
